@@ -67,7 +67,10 @@ type Case struct {
 	Digest    string `json:"digest,omitempty"`    // sha1 | sha256 | sha512 | ripemd160 | absent
 	Sibling   bool   `json:"sibling,omitempty"`   // EncryptedKey next to EncryptedData (sp entry)
 	SPKey     string `json:"sp_key,omitempty"`    // sp entry: the SP's own key fixture (sp | spec)
-	Reparse   bool   `json:"reparse,omitempty"`   // hand the serialised-and-parsed tree (else the in-memory one)
+	// how the presented document spells the two namespaces: "" (xenc: / ds:) | other (e: / dsig:) | default (default namespace, no prefix)
+	XencPrefix string `json:"xenc_prefix,omitempty"`
+	DsPrefix   string `json:"ds_prefix,omitempty"`
+	Reparse    bool   `json:"reparse,omitempty"` // hand the serialised-and-parsed tree (else the in-memory one)
 
 	PlainKind string `json:"plain_kind,omitempty"` // assertion | nosubject | comment | pi | empty | space | text | open | bytes
 	Plain     []byte `json:"plain,omitempty"`
@@ -285,6 +288,7 @@ type tree struct {
 	key  *etree.Element // nil for direct transport
 	// what the harness knows about the data cipher value it put in
 	value []byte
+	opt   refenc.Options // namespace spelling of the document
 }
 
 func setCV(el *etree.Element, v []byte) {
@@ -302,6 +306,18 @@ func (c Case) build() (*tree, error) {
 	s := spec(c.Block)
 	o := refenc.Options{BlockAlg: blockURI(c.Block), IV: c.IV, ContentKey: c.Key, PadFiller: c.Filler,
 		Rand: newStream(c.Seed, "ref"), ID: "_c11-data", KeyID: "_c11-key", Sibling: c.Sibling}
+	switch c.XencPrefix {
+	case "other":
+		o.XencPrefix = "e"
+	case "default":
+		o.XencPrefix = "-"
+	}
+	switch c.DsPrefix {
+	case "other":
+		o.DsPrefix = "dsig"
+	case "default":
+		o.DsPrefix = "-"
+	}
 	switch c.Transport {
 	case "oaep-mgf1p":
 		o.KeyTransport, o.Digest = refenc.RSAOAEPMGF1P, digestURI(c.Digest)
@@ -321,7 +337,7 @@ func (c Case) build() (*tree, error) {
 	if err != nil {
 		return nil, err
 	}
-	t := &tree{data: data, key: key}
+	t := &tree{data: data, key: key, opt: o}
 	t.value, _ = refenc.EncryptBlock(o.BlockAlg, c.Key, c.IV, plain, c.Filler)
 
 	// kind-specific replacement of cipher values
@@ -465,8 +481,7 @@ func (c Case) build() (*tree, error) {
 		if c.Sibling {
 			t.ea.AddChild(key)
 		} else {
-			ki := etree.NewElement("ds:KeyInfo")
-			ki.CreateAttr("xmlns:ds", refenc.NSDsig)
+			ki := o.KeyInfoElement()
 			ki.AddChild(key)
 			data.InsertChildAt(1, ki)
 		}
@@ -484,12 +499,10 @@ func (c Case) build() (*tree, error) {
 func (t *tree) addRetrieval(uri string, first bool) {
 	ki := t.data.FindElement("./KeyInfo")
 	if ki == nil {
-		ki = etree.NewElement("ds:KeyInfo")
-		ki.CreateAttr("xmlns:ds", refenc.NSDsig)
+		ki = t.opt.KeyInfoElement()
 		t.data.InsertChildAt(1, ki)
 	}
-	rm := etree.NewElement("ds:RetrievalMethod")
-	rm.CreateAttr("xmlns:ds", refenc.NSDsig)
+	rm := etree.NewElement(t.opt.DsTag("RetrievalMethod")) // namespace declared by the KeyInfo it goes into
 	rm.CreateAttr("Type", refenc.NSXenc+"EncryptedKey")
 	rm.CreateAttr("URI", uri)
 	if first {
@@ -647,7 +660,7 @@ func (t *tree) apply(m Mut, seed []byte) bool {
 		}
 		el.SetCData(el.Text())
 	case "child":
-		el.InsertChildAt(0, etree.NewElement("xenc:x"))
+		el.InsertChildAt(0, etree.NewElement(t.opt.XencTag("x")))
 	case "rename":
 		el.Tag = m.Arg
 	case "space":
@@ -663,8 +676,7 @@ func (t *tree) apply(m Mut, seed []byte) bool {
 		}
 		ki := t.role("data.ki")
 		if ki == nil {
-			ki = etree.NewElement("ds:KeyInfo")
-			ki.CreateAttr("xmlns:ds", refenc.NSDsig)
+			ki = t.opt.KeyInfoElement()
 			t.data.InsertChildAt(1, ki)
 		}
 		inner := t.key
@@ -676,12 +688,13 @@ func (t *tree) apply(m Mut, seed []byte) bool {
 		}
 		cur := ki
 		for i := 0; i < n; i++ {
-			ek := cur.CreateElement("xenc:EncryptedKey")
-			ek.CreateAttr("xmlns:xenc", refenc.NSXenc)
-			ek.CreateElement("xenc:EncryptionMethod").CreateAttr("Algorithm", m.Arg)
-			cur = ek.CreateElement("ds:KeyInfo")
-			cur.CreateAttr("xmlns:ds", refenc.NSDsig)
-			ek.CreateElement("xenc:CipherData").CreateElement("xenc:CipherValue").SetText(
+			ek := cur.CreateElement(t.opt.XencTag("EncryptedKey"))
+			t.opt.XencDecl(ek)
+			ek.CreateElement(t.opt.XencTag("EncryptionMethod")).CreateAttr("Algorithm", m.Arg)
+			nki := t.opt.KeyInfoElement()
+			ek.AddChild(nki)
+			cur = nki
+			ek.CreateElement(t.opt.XencTag("CipherData")).CreateElement(t.opt.XencTag("CipherValue")).SetText(
 				base64.StdEncoding.EncodeToString(expand(seed, fmt.Sprintf("chain%d", i), 16+(i*7)%49)))
 		}
 		if inner != nil {
@@ -711,8 +724,7 @@ func (t *tree) apply(m Mut, seed []byte) bool {
 		}
 		ki := t.role("data.ki")
 		if ki == nil {
-			ki = etree.NewElement("ds:KeyInfo")
-			ki.CreateAttr("xmlns:ds", refenc.NSDsig)
+			ki = t.opt.KeyInfoElement()
 			t.data.InsertChildAt(1, ki)
 		}
 		ki.AddChild(t.key.Copy())
@@ -824,6 +836,9 @@ func guard(f func() error) (err error, panicked bool) {
 
 func (c Case) describe() string {
 	s := fmt.Sprintf("kind=%s entry=%s block=%s transport=%s", c.Kind, c.Entry, c.Block, c.Transport)
+	if c.XencPrefix != "" || c.DsPrefix != "" {
+		s += fmt.Sprintf(" spelling(xmlenc=%q,xmldsig=%q)", c.XencPrefix, c.DsPrefix)
+	}
 	if c.Digest != "" {
 		s += "/" + c.Digest
 	}
@@ -888,6 +903,11 @@ func wellFormed(c Case) bool {
 	}
 	if c.Entry == "sp" && c.SPKey != "sp" && c.SPKey != "spec" {
 		return false
+	}
+	for _, p := range []string{c.XencPrefix, c.DsPrefix} {
+		if p != "" && p != "other" && p != "default" {
+			return false
+		}
 	}
 	switch c.Kind {
 	case "control", "len", "plain", "mut":
@@ -1008,6 +1028,12 @@ func check(c Case) pbt.Result {
 		return pbt.Result{Skip: true}
 	}
 	cl := []string{"kind:" + c.Kind, "entry:" + c.Entry, "block:" + c.Block, "transport:" + c.Transport}
+	if c.XencPrefix != "" {
+		cl = append(cl, "spelling:xmlenc-"+c.XencPrefix)
+	}
+	if c.DsPrefix != "" {
+		cl = append(cl, "spelling:xmldsig-"+c.DsPrefix)
+	}
 	applied := 0
 	for _, m := range c.Muts {
 		if t.apply(m, c.Seed) {
@@ -1451,6 +1477,9 @@ func genBase(t *rapid.T, c *Case) {
 		c.Plain = rapid.SliceOfN(rapid.Byte(), 0, 70).Draw(t, "plain")
 	}
 	c.Reparse = rapid.Bool().Draw(t, "reparse")
+	spell := []string{"", "", "other", "default"}
+	c.XencPrefix = rapid.SampledFrom(spell).Draw(t, "xenc-prefix")
+	c.DsPrefix = rapid.SampledFrom(spell).Draw(t, "ds-prefix")
 }
 
 func genKeyKind(t *rapid.T, c *Case) {
@@ -1678,6 +1707,12 @@ func baseCase(kind, entry, block, transport, digest string, id string) Case {
 		Seed: expand(seed, "seed", 6), PlainKind: "assertion", Reparse: true, SPKey: "sp"}
 }
 
+// spellAt cycles deterministically through the nine namespace spellings.
+func spellAt(i int) (string, string) {
+	sp := []string{"", "other", "default"}
+	return sp[i%3], sp[(i/3)%3]
+}
+
 func maxValueLen(s refenc.BlockSpec) int {
 	if s.GCM {
 		return s.IVLen + s.TagLen + 4*s.Block + 1
@@ -1805,6 +1840,28 @@ func enumCert(_ string, emit func(Case)) {
 			}
 		}
 	}
+	// the verdict must not depend on how the document spells the namespaces
+	for _, cert := range []string{"match", "sp2", "attacker", "ec"} {
+		for _, xp := range []string{"", "other", "default"} {
+			for _, dp := range []string{"", "other", "default"} {
+				if xp == "" && dp == "" {
+					continue
+				}
+				for _, variant := range []string{"decrypt/rsa-ptr", "decrypt/rsa-other", "decrypt-key/rsa-ptr", "sp/nested", "sp/sibling"} {
+					c := baseCase("cert", "decrypt", "aes128-cbc", []string{"oaep-mgf1p", "pkcs1"}[len(dp)%2], []string{"sha1", ""}[len(dp)%2], fmt.Sprintf("certspell/%s/%s/%s", cert, xp, dp))
+					c.Cert, c.XencPrefix, c.DsPrefix = cert, xp, dp
+					p := strings.Split(variant, "/")
+					c.Entry = p[0]
+					if p[0] == "sp" {
+						c.Sibling = p[1] == "sibling"
+					} else {
+						c.KeyKind = p[1]
+					}
+					emit(c)
+				}
+			}
+		}
+	}
 	for _, cert := range []string{"match", "match-wrapped", "sp2", "attacker", "rsa1024", "ec", "garbage", "empty", "notb64", "truncated"} {
 		for _, tr := range []tcombo{{"oaep-mgf1p", "sha1"}, {"oaep-mgf1p", "sha256"}, {"pkcs1", ""}} {
 			for _, b := range []string{"aes128-cbc", "aes128-gcm"} {
@@ -1834,6 +1891,7 @@ func enumPlainSP(_ string, emit func(Case)) {
 				for _, sib := range []bool{false, true} {
 					c := baseCase("plain", "sp", b, tr.transport, tr.digest, fmt.Sprintf("plain/%s/%s/%s/%v", pk, b, tr.transport, sib))
 					c.PlainKind, c.Sibling = pk, sib
+					c.XencPrefix, c.DsPrefix = spellAt(len(pk) + len(b) + len(tr.transport))
 					if pk == "bytes" {
 						c.Plain = []byte{0, 1, 2, 0xff, '<'}
 					}
@@ -1854,6 +1912,7 @@ func enumRetrieval(_ string, emit func(Case)) {
 				for _, second := range []string{"", "before"} {
 					c := baseCase("retr", "sp", []string{"aes128-cbc", "aes128-gcm"}[i%2], "oaep-mgf1p", "sha1", fmt.Sprintf("retr/%d", i))
 					c.URI, c.HasURI, c.Sibling, c.SecondKey = uri, true, sib, second
+					c.XencPrefix, c.DsPrefix = spellAt(i)
 					c.SPAllowIDPInitiated = i%3 == 0
 					switch idv {
 					case "fixed":
@@ -1936,7 +1995,7 @@ func enumFiles(_ string, emit func(Case)) {
 
 var prop = &pbt.Prop[Case]{
 	ID: "C11",
-	Rule: "cases: reference-built EncryptedData/EncryptedKey trees (5 block ciphers x direct / rsa-oaep-mgf1p / xmlenc11 rsa-oaep / PKCS#1 key transport, nested or sibling key) damaged by one of {replaced cipher value of chosen length, CBC value with chosen final decrypted octet, modified GCM value, embedded-certificate variant, attacker-chosen plaintext shape, ds:RetrievalMethod with benign and hostile URIs (quotes, brackets, path and query metacharacters) x EncryptedKey Id attributes (fixed / exactly the fragment / hostile / absent) x one or two recipients' keys, 1-4 structural mutations (remove/duplicate/nest/rename elements, added RetrievalMethod / Id attributes / second EncryptedKey, Algorithm attribute edits, bad base64, comments/CDATA/children inside CipherValue, chains of nested EncryptedKey, moved keys), byte mutations of repository corpus documents and of generated documents}, presented to xmlenc.Decrypt with keys of every Go type ([]byte of 0..40 octets, *rsa.PrivateKey, rsa.PrivateKey, *ecdsa.PrivateKey, string, int, nil) and to ServiceProvider.ParseXMLResponse inside an unsigned Response. " +
+	Rule: "cases: reference-built EncryptedData/EncryptedKey trees (5 block ciphers x direct / rsa-oaep-mgf1p / xmlenc11 rsa-oaep / PKCS#1 key transport, nested or sibling key) damaged by one of {replaced cipher value of chosen length, CBC value with chosen final decrypted octet, modified GCM value, embedded-certificate variant, attacker-chosen plaintext shape, ds:RetrievalMethod with benign and hostile URIs (quotes, brackets, path and query metacharacters) x namespace spelling of the document (xenc:/ds:, other prefixes, default namespace, independently for xmlenc and xmldsig) x EncryptedKey Id attributes (fixed / exactly the fragment / hostile / absent) x one or two recipients' keys, 1-4 structural mutations (remove/duplicate/nest/rename elements, added RetrievalMethod / Id attributes / second EncryptedKey, Algorithm attribute edits, bad base64, comments/CDATA/children inside CipherValue, chains of nested EncryptedKey, moved keys), byte mutations of repository corpus documents and of generated documents}, presented to xmlenc.Decrypt with keys of every Go type ([]byte of 0..40 octets, *rsa.PrivateKey, rsa.PrivateKey, *ecdsa.PrivateKey, string, int, nil) and to ServiceProvider.ParseXMLResponse inside an unsigned Response. " +
 		"non-trivial: the element handed over still reaches a registered decrypter (EncryptionMethod/@Algorithm registered, CipherData/CipherValue present) and the case is not an unmodified control. distinct: sha256 of the JSON case.",
 	Gen:   gen,
 	Check: check,
@@ -1956,7 +2015,7 @@ var prop = &pbt.Prop[Case]{
 		"typed-nil pointers as keys or elements are outside the domain (DESIGN 2.6); untyped nil is inside",
 		"acceptance of a well-formed ciphertext is not judged here (C10 does); only: no panic, the must-reject classes, and 'returned plaintext equals the reference plaintext'",
 		"CBC values whose final octet lies between block size + 1 and the decrypted length are don't-care (W3C forbids them, the package tolerates them)",
-		"the certificate/key consistency rule is judged only for a certificate at EncryptedKey/KeyInfo/X509Data/X509Certificate and a *rsa.PrivateKey key",
+		"the certificate/key consistency rule is judged only for a certificate at EncryptedKey/KeyInfo/X509Data/X509Certificate and a *rsa.PrivateKey key; it is judged whatever prefix (or default namespace) the document binds to xmldsig / xmlenc",
 		"through the SP entry every case must end in an error because nothing in it is signed (with AllowIDPInitiated on or off, RSA or EC SP key)",
 		"which EncryptedKey a RetrievalMethod selects is not judged (the property is silent); only totality and the must-reject classes are",
 		"corpus documents are read from <repo>/xmlenc/{corpus,testdata}/*.xml at run time",
